@@ -225,6 +225,12 @@ func checkKept(f *findings, c config, before, after snap, phase string) {
 	for _, r := range c.roles() {
 		bd := secretData(before, c.Namespace, r.Secret)
 		ad := secretData(after, c.Namespace, r.Secret)
+		if r.Name == "ca" && (len(bd["tls.crt"]) == 0) != (len(bd["tls.key"]) == 0) {
+			// half a CA (certificate without key or key without certificate) is not an existing
+			// authority: the unchanged tree replaces it by a fresh, complete one. O3 still demands
+			// that whatever is stored is one consistent authority that the issued certificates chain to.
+			continue
+		}
 		dks := make([]string, 0, len(bd))
 		for k := range bd {
 			dks = append(dks, k)
